@@ -90,6 +90,12 @@ type node struct {
 	height  uint64
 	prev    *types.Hash
 	snaps   []int
+	pending []pendingBlock
+}
+
+type pendingBlock struct {
+	accounts map[string]ledger2.IAccount
+	root     *types.Hash
 }
 
 func newCache(n int) *ledger.AccountCache {
@@ -176,8 +182,34 @@ func (n *node) reopen() error {
 	return n.open()
 }
 
+// flush ends the block under execution (FlushDirtyData) without persisting it: this is what the executor
+// does before it hands the block to the persist goroutine. The flushed block is committed later by
+// commitPending; until then its writes live only in the account cache.
+func (n *node) flush() *types.Hash {
+	n.sl.ClearChangerAndRefund()
+	n.snaps = nil
+	accounts, root := n.sl.FlushDirtyData()
+	n.pending = append(n.pending, pendingBlock{accounts: accounts, root: root})
+	return root
+}
+
+// commitPending persists the oldest flushed block (state ledger only).
+func (n *node) commitPending() *types.Hash {
+	pb0 := n.pending[0]
+	n.pending = n.pending[1:]
+	h := n.height + 1
+	if err := n.sl.Commit(h, pb0.accounts, pb0.root); err != nil {
+		panic(err)
+	}
+	n.height = h
+	return pb0.root
+}
+
 // commit flushes the dirty data and persists block height+1. Returns the state root.
 func (n *node) commit() (*types.Hash, *pb.Block) {
+	if len(n.pending) > 0 {
+		panic("commit with flushed blocks pending")
+	}
 	n.sl.ClearChangerAndRefund()
 	n.snaps = nil
 	accounts, root := n.sl.FlushDirtyData()
@@ -263,6 +295,7 @@ type model struct {
 	hist      map[uint64]mState
 	height    uint64
 	minJnl    uint64
+	pend      []mState // flushed, not yet committed blocks (oldest first)
 }
 
 func newModel() *model {
@@ -307,10 +340,24 @@ func (m *model) revert(idx int) {
 	m.snaps = m.snaps[:idx]
 }
 func (m *model) txend() { m.journal, m.snaps = nil, nil }
+
+// flush ends the block: its writes stay visible (work) and are queued for commitPending.
+func (m *model) flush() {
+	m.txend()
+	m.pend = append(m.pend, m.work.clone())
+}
+func (m *model) commitPending() {
+	st := m.pend[0]
+	m.pend = m.pend[1:]
+	m.commitState(st)
+}
 func (m *model) commit() {
 	m.txend()
+	m.commitState(m.work.clone())
+}
+func (m *model) commitState(st mState) {
 	m.height++
-	m.committed = m.work.clone()
+	m.committed = st
 	m.hist[m.height] = m.committed.clone()
 	if m.minJnl == 0 {
 		m.minJnl = m.height
